@@ -11,7 +11,7 @@
      ehit c p v e            expression e is hit by the assigned value v, by container kind c:
         CDefault   parse_assign p v = POk ids and some id is among the parsed values of e (val_hit)
         CAc        ac_parse_dict (e_val e) = POk ks, ac_query_text [32] v = POk t, t is NOT EMPTY and some
-                   keyword w of ks (possibly the EMPTY keyword) has substring w t = true
+                   keyword w of ks (possibly the EMPTY keyword) has kw_found w t = true
         CRange     parse_integers true v = POk xs and some x of xs has range_hit e x:
                      OpEQ: parse_integers true (e_val e) = POk zs and x among zs
                      OpGT/OpLT/OpBetween: parse_range (e_op e) true (e_val e) = POk (l, r) and l <= x < r
@@ -45,7 +45,7 @@ Definition ehit (c : cont_kind) (p : parser_kind) (v : gval) (e : expr) : bool :
                 | POk ids => existsb (fun id => RoaringProof.val_hit p id e) ids
                 | _ => false end
   | CAc => match ac_parse_dict (e_val e), ac_query_text [32%N] v with
-           | POk ks, POk t => nonempty_t t && existsb (fun w => substring w t) ks
+           | POk ks, POk t => nonempty_t t && existsb (fun w => kw_found w t) ks
            | _, _ => false end
   | CRange => match parse_integers true v with POk xs => existsb (range_hit e) xs | _ => false end
   end.
@@ -215,7 +215,7 @@ Qed.
 Definition qkeyc (c : cont_kind) (p : parser_kind) (v : gval) (key : key) : Prop :=
   match c, key with
   | CDefault, KId id => exists ids, parse_assign p v = POk ids /\ In id ids
-  | CAc, KKw w => exists t, ac_query_text [32%N] v = POk t /\ t <> [] /\ substring w t = true
+  | CAc, KKw w => exists t, ac_query_text [32%N] v = POk t /\ t <> [] /\ kw_found w t = true
   | CRange, KZ z => exists xs, parse_integers true v = POk xs /\ In z xs
   | CRange, KPiece x => exists xs, parse_integers true v = POk xs /\ In x xs
   | _, _ => False
@@ -249,7 +249,7 @@ Qed.
 Lemma ac_entries fd fid vals v t : NoDup (map fst vals) -> ac_query_text [32%N] v = POk t ->
   exists ls, get_entries fd fid (HAc vals) v = POk ls /\
     Forall (fun l => l <> [] /\ exists w, l = lk text_eqb w vals) ls /\
-    forall x, In x (concat ls) <-> (t <> [] /\ exists w, substring w t = true /\ In x (lk text_eqb w vals)).
+    forall x, In x (concat ls) <-> (t <> [] /\ exists w, kw_found w t = true /\ In x (lk text_eqb w vals)).
 Proof.
   intros Hnd Ht. cbn [get_entries]. destruct vals as [|kv0 vals'] eqn:Ev.
   - exists []. split; [reflexivity|]. split; [constructor|]. intros x. cbn [concat In]. split; [intros []|].
@@ -259,10 +259,10 @@ Proof.
       intros (H & _). congruence.
     + rewrite <- Ev in *. eexists. split; [reflexivity|].
       assert (Hin : forall l, In l (nonempty_lists (flat_map (fun kv : text * list N =>
-                      if substring (fst kv) (c :: t') then [snd kv] else []) vals)) <->
-                    l <> [] /\ exists w, In (w, l) vals /\ substring w (c :: t') = true).
+                      if kw_found (fst kv) (c :: t') then [snd kv] else []) vals)) <->
+                    l <> [] /\ exists w, In (w, l) vals /\ kw_found w (c :: t') = true).
       { intros l. rewrite nonempty_lists_In, in_flat_map. split.
-        - intros [([w l'] & Hkv & Hl) Hne]. cbn [fst snd] in Hl. destruct (substring w (c :: t')) eqn:Es; [|destruct Hl].
+        - intros [([w l'] & Hkv & Hl) Hne]. cbn [fst snd] in Hl. destruct (kw_found w (c :: t')) eqn:Es; [|destruct Hl].
           destruct Hl as [->|[]]. split; [exact Hne|]. exists w. auto.
         - intros [Hne (w & Hkv & Hs)]. split; [|exact Hne]. exists (w, l). split; [exact Hkv|]. cbn [fst snd].
           rewrite Hs. left. reflexivity. }
@@ -1299,7 +1299,7 @@ Qed.
 
 Lemma ehit_ac_iff p v e : ehit CAc p v e = true <->
   exists ks t, ac_parse_dict (e_val e) = POk ks /\ ac_query_text [32%N] v = POk t /\ t <> [] /\
-               exists w, In w ks /\ substring w t = true.
+               exists w, In w ks /\ kw_found w t = true.
 Proof.
   cbn [ehit]. destruct (ac_parse_dict (e_val e)) as [ks| | | |]; try (split; [discriminate|intros (? & ? & ? & _); discriminate]).
   destruct (ac_query_text [32%N] v) as [t| | | |]; try (split; [discriminate|intros (? & ? & _ & ? & _); discriminate]).
@@ -1381,12 +1381,12 @@ Module WitnessH.
   Proof. intros []; vm_compute; split; reflexivity. Qed.
 
   (* (1) THE REQUESTED READING "hit iff some NON-EMPTY keyword occurs in the text" IS FALSE of the model:
-     the EMPTY keyword "" is stored like any other, substring [] t = true, so it is hit by every
+     the EMPTY keyword "" is stored like any other, kw_found [] t = true, so it is hit by every
      NON-EMPTY text (and by no empty text: an empty text selects nothing). *)
   Definition ehit_ne (c : cont_kind) (p : parser_kind) (v : gval) (e : expr) : bool :=
     match c with
     | CAc => match ac_parse_dict (e_val e), ac_query_text [32%N] v with
-             | POk ks, POk t => existsb (fun w => nonempty_t w && substring w t) ks
+             | POk ks, POk t => existsb (fun w => nonempty_t w && kw_found w t) ks
              | _, _ => false end
     | _ => ehit c p v e
     end.
